@@ -28,8 +28,8 @@ NbitsArgs   == {<<0, 0>>, <<0, 1>>, <<1, 1>>, <<3, 5>>, <<3, 7>>, <<3, 8>>, <<3,
 UintLitArgs == {<<1, 165>>, <<1, 256>>}
 UVals       == {-1, 0, 1, 2, 3, 6, 7}
 SVals       == {-3, -1, 0, 1, 2, 4}
-BitArrArgs  == {<<0, <<>>>>, <<3, <<1, 0, 1>>>>, <<3, <<1>>>>, <<2, <<1, 1, 1>>>>, <<4, <<1, 1, 1, 1>>>>}
-BytesArgs   == {<<1, <<165>>>>, <<2, <<255>>>>, <<0, <<1>>>>, <<1, <<>>>>}
+BitArrArgs  == {<<0, <<>>>>, <<3, <<1, 0, 1>>>>, <<3, <<1>>>>, <<2, <<1, 1, 1>>>>, <<4, <<1, 1, 1, 1>>>>, <<10, <<1>>>>}
+BytesArgs   == {<<1, <<165>>>>, <<2, <<255>>>>, <<3, <<129>>>>, <<0, <<1>>>>, <<1, <<>>>>}
 BLens       == {-2, 0, 1, 2, 3, 5, 8}
 WSeeks      == {0, 1} \X {7, 3}
 
